@@ -28,7 +28,7 @@ import traceback
 from vf import common, tlc, evidence
 
 PROP = "C17"
-NPROC = 16
+NPROC = int(os.environ.get("VF_WORKERS", "16") or 16)    # default 16; lower it on a loaded machine
 
 ACTIONS = ["StartGen", "CaseGen", "StartTower", "CaseTower", "StartProt", "CaseProt", "StartRaw", "StepRaw",
            "StartRawE", "StepRawE", "StartExpr", "CaseExpr", "StartIll", "CaseIll", "StartETower", "CaseETower",
@@ -311,11 +311,11 @@ def q(s):
 
 
 def random_inputs(seed, n, base_s, base_e):
-    """deterministic in (seed, n): list of (kind, src)"""
+    """deterministic in (seed, n): list of (kind, src); expressions are rare (the real parser needs ~10 ms each)"""
     rng = random.Random(seed * 7919 + 17)
     res = []
     for i in range(n):
-        r = i % 8
+        r = i % 6 if i % 48 >= 2 else 6 + i % 2
         if r in (0, 1):
             res.append(("s", rnd_string(rng, META_S, 24)))
         elif r in (2, 3):
@@ -343,6 +343,8 @@ def random_inputs(seed, n, base_s, base_e):
 def work(task):
     kind, items = task
     common.use_repo()
+    import warnings
+    warnings.simplefilter("ignore")          # FutureWarning of re on random patterns
     out = Out()
     for it in items:
         if kind == "s":
@@ -355,7 +357,7 @@ def work(task):
             check_free(out, it, "e", FREE_ENVS[:2])
         else:
             check_free(out, it[1], it[0])
-    return out.fails[:400], len(out.fails), out.evals, out.cases, dict(out.stats)
+    return out.fails, len(out.fails), out.evals, out.cases, dict(out.stats)
 
 
 def chunks(kind, items, n):
@@ -368,6 +370,28 @@ def signature(f):
     return None
 
 
+DELIM = set("\"'$,)}:-+")
+
+
+def lone_escaped_delimiter(src):
+    """signature aid only: the input contains \\c, c a meta character, with nothing but token boundaries around it"""
+    i = 0
+    while i < len(src) - 1:
+        if src[i] == "\\":
+            c = src[i + 1]
+            j = i
+            while j > 0 and (src[j - 1].isalnum() or src[j - 1] == "_"):
+                j -= 1                       # a token also starts after a bare $NAME
+            before = i == 0 or src[i - 1] in DELIM or src[i - 1] in "{(" or (j < i and j > 0 and src[j - 1] == "$")
+            after = i + 2 >= len(src) or src[i + 2] in DELIM
+            if c in DELIM and before and after:
+                return True
+            i += 2
+        else:
+            i += 1
+    return False
+
+
 def report_failures(rep, fails, total):
     """Group the failures into few, stable signatures: internal exceptions by (exception, Bob function);
     oracle failures by the node kinds of the smallest failing cases."""
@@ -376,6 +400,7 @@ def report_failures(rep, fails, total):
         return c.get("src", c.get("expr", ""))
     fails.sort(key=lambda f: (len(src_of(f)), src_of(f), f.get("api", "")))
     seen_int = {}
+    lone = {}
     groups = collections.defaultdict(list)       # oracle -> [(tagset, fail)]
     counts = collections.Counter()
     for f in fails:
@@ -385,6 +410,11 @@ def report_failures(rep, fails, total):
             seen_int.setdefault(sig, f)
             continue
         tags = frozenset(f["case"].get("tags", []))
+        texts = [f["case"].get(k, "") for k in ("src", "expr", "fun", "call", "sub")]
+        if "esc" in tags and any(lone_escaped_delimiter(t) for t in texts):
+            counts["lone"] += 1
+            lone.setdefault(f["oracle"], f)
+            continue
         g = groups[f["oracle"]]
         hit = [t for t, _ in g if t <= tags]
         if hit:
@@ -395,6 +425,11 @@ def report_failures(rep, fails, total):
     for sig, f in seen_int.items():
         rep.violation(sig, {"smallest_input": f["case"], "api": f["api"], "exception": f["got"],
                             "inputs_with_this_signature": counts[sig], "failures_total": total})
+    if lone:
+        f = min(lone.values(), key=lambda f: (len(src_of(f)), src_of(f)))
+        rep.violation("value:lone-escaped-delimiter",
+                      {"smallest_case": f["case"], "api": f["api"], "expected": f["expected"], "got": f["got"],
+                       "oracles_failing": sorted(lone), "cases_with_this_signature": counts["lone"], "failures_total": total})
     for oracle, g in groups.items():
         for tags, f in g[:6]:
             sig = "%s:%s:%s" % (oracle, f["case"].get("f", "?"), "+".join(sorted(tags)))
@@ -426,6 +461,14 @@ def main():
         return replay(a.replay)
     rep = evidence.Report(PROP, a.tier, a.seed)
     quick = a.tier == "quick"
+    # import the code under test first (before the long TLC phase, before forking) and make sure it IS the tree
+    # under test: `import bob` silently falls back to an installed /repo/pym if $VERIF_REPO has disappeared
+    root = os.path.realpath(common.use_repo())
+    import bob.stringparser
+    import bob.errors
+    for mod in (bob.stringparser, bob.errors):
+        if not os.path.realpath(mod.__file__).startswith(root + os.sep):
+            raise RuntimeError("%s imported from %s, not from the tree under test %s" % (mod.__name__, mod.__file__, root))
     rep.rule = ("case = one TLC state of StringSubst (AST of the documented grammar + environment, or a raw string); every "
                 "case is evaluated by the real Env.substitute / Env.evaluate / substituteCondDict / IfExpression and "
                 "compared with the reference value; non-trivial = distinct sets of node kinds with >= 2 kinds; "
@@ -436,23 +479,33 @@ def main():
                        "inputs nesting deeper than the generated towers / longer than 64 characters are not exercised "
                        "(Python recursion limit)"]
     # (A) exhaustive enumeration = model check of the reference semantics
-    cfg = "StringSubst.cfg" if quick else "StringSubst_thorough.cfg"
-    res = tlc.run("StringSubst", cfg, coverage=quick, timeout=1500, heap="12g")
-    rep.add_tlc(res, cfg)
-    if res.violated:
-        rep.violation("model:" + res.violated, {"cex": res.cex[-2:]})
-    if quick:
-        tlc.require_coverage(res, ACTIONS, cfg)
-    for inv in REACH:
-        r2 = tlc.run("StringSubst", "StringSubst_reach_%s.cfg" % inv, timeout=300)
-        if r2.violated != inv:
-            raise tlc.TlcError("vacuity: %s not reachable" % inv)
-    cases = res.printed
-    res.printed = None
-    res.out = ""
+    cases = []
+    for cfg in (["StringSubst.cfg"] if quick else ["StringSubst_thorough.cfg", "StringSubst_thorough_rich.cfg"]):
+        res = tlc.run("StringSubst", cfg, workers=NPROC, coverage=quick, timeout=15000, heap="12g")
+        rep.add_tlc(res, cfg)
+        if res.violated:
+            rep.violation("model:" + res.violated, {"cex": res.cex[-2:], "config": cfg})
+        if quick:
+            tlc.require_coverage(res, ACTIONS, cfg)
+        cases += res.printed
+        res.printed = None
+        res.out = ""
+    # vacuity: the negated reachability configs must each be violated (tiny; run side by side)
+    from concurrent.futures import ThreadPoolExecutor
+    with ThreadPoolExecutor(max(1, min(NPROC, len(REACH)))) as ex:
+        for inv, r2 in zip(REACH, ex.map(lambda inv: tlc.run("StringSubst", "StringSubst_reach_%s.cfg" % inv,
+                                                             workers=1, timeout=3000), REACH)):
+            if r2.violated != inv:
+                raise tlc.TlcError("vacuity: %s not reachable" % inv)
     by = collections.defaultdict(list)
+    seen = set()
     for c in cases:
+        key = (c["k"], c.get("src", c.get("expr")), json.dumps(c.get("env"), sort_keys=True))
+        if key in seen and c["k"] in ("raw", "rawe"):
+            continue
+        seen.add(key)
         by[c["k"]].append(c)
+    del seen
     if not by["s"] or not by["e"] or not by["raw"] or not by["rawe"]:
         raise tlc.TlcError("TLC printed no cases of some kind: %s" % {k: len(v) for k, v in by.items()})
     fams = collections.Counter((c["k"], c.get("f", "")) for c in cases)
@@ -471,7 +524,7 @@ def main():
     rep.extra["raw_strings_that_are_documented_grammar"] = sum(1 for s in raw if s in srcs)
     rep.extra["raw_expressions_that_are_documented_grammar"] = len(set(rawe) & set(exprs))
     by["e"].sort(key=lambda c: c["expr"])        # parse cache locality
-    nrand = 160000 if quick else 2000000
+    nrand = 96000 if quick else 1500000
     rnd = random_inputs(a.seed, nrand, sorted(srcs)[::7], exprs[::3])
     rnd += [("s", s) for s in HOSTILE_S] + [("e", s) for s in HOSTILE_E] + [("e", s) for s in HOSTILE_S] + [("s", s) for s in HOSTILE_E]
     rep.extra["random_and_hostile_inputs"] = len(rnd)
@@ -486,9 +539,6 @@ def main():
             rep.nontriv("e:" + "+".join(sorted(c["tags"])))
     for c in (by["s"][len(by["s"]) // 3], by["s"][-1], by["e"][len(by["e"]) // 2], by["e"][-1]):
         rep.sample(c)
-    common.use_repo()
-    import bob.stringparser  # noqa: F401  (import before fork)
-    import bob.errors  # noqa: F401
     fails, total, stats = [], 0, collections.Counter()
     with mp.get_context("fork").Pool(NPROC) as pool:
         for f, n, evals, ncases, st in pool.imap_unordered(work, tasks):
